@@ -45,8 +45,10 @@ pub fn random_model(r: &mut Rng) -> Model {
         RV::Tuple(vec![RV::Float(2.5)]),
     ];
     // now and then a user function shadows a builtin
-    if r.chance(1, 6) {
-        m.funs.insert(r.pick(&["min", "max", "len", "typeof", "if", "str::from"]).to_string(), FnModel::Marker);
+    if r.chance(1, 5) {
+        // … which may also fail: its error is the call's error, the builtin must not step in
+        let f = if r.chance(1, 2) { FnModel::Marker } else { FnModel::Fail };
+        m.funs.insert(r.pick(&["min", "max", "len", "typeof", "if", "str::from"]).to_string(), f);
     }
     for n in ["x", "y", "x0", "x1", "x2"] {
         if r.chance(2, 3) {
@@ -100,10 +102,19 @@ pub fn self_referential_opassign(a: &Ast) -> bool {
 }
 
 pub fn corpus_exhaustive() -> Vec<Ast> {
-    enumerate_asts_with(3, &mut |idx, pos| effect_leaf(idx * 5 + pos * 7, (pos + 1) as i64))
+    let mut v: Vec<Ast> = enumerate_asts_with(3, &mut |idx, pos| effect_leaf(idx * 5 + pos * 7, (pos + 1) as i64))
         .into_iter()
         .filter(|a| !self_referential_opassign(a))
-        .collect()
+        .collect();
+    // every binary operator on two identical effectful operands
+    for op in BINOPS {
+        for kind in [0usize, 3, 5, 6, 7, 8] {
+            let e = Ast::Bin("+", Box::new(effect_leaf(kind, 1)), Box::new(Ast::Const(RV::Int(1))));
+            v.push(Ast::Bin(op, Box::new(e.clone()), Box::new(e.clone())));
+            v.push(Ast::Bin(op, Box::new(effect_leaf(kind, 1)), Box::new(effect_leaf(kind, 1))));
+        }
+    }
+    v
 }
 
 pub struct ProgGen<'a> {
@@ -156,7 +167,13 @@ impl<'a> ProgGen<'a> {
             return l;
         }
         let d = depth - 1;
-        match self.r.below(22) {
+        match self.r.below(23) {
+            22 => {
+                // both operands are the same expression: it is still evaluated twice
+                let op = *self.r.pick(&BINOPS);
+                let a = self.expr(d, false);
+                Ast::Bin(op, Box::new(a.clone()), Box::new(a))
+            },
             0..=8 => {
                 let op = *self.r.pick(&BINOPS);
                 let a = self.expr(d, allow_assign);
@@ -484,6 +501,15 @@ pub fn check_program(out: &mut Out, ast: &Ast, model: &Model, r: &mut Rng) {
     let is = exec::run_impl(&src, None, model, Entry::StrMut, false);
     out.eval();
     exec::compare(out, "order", &src, model, &rr, &is, Entry::StrMut);
+    // the read-only path evaluates in the same order, exactly once (effects of user functions are visible there too)
+    {
+        let rr_imm = exec::run_ref(ast, model, false);
+        let ii = exec::run_impl(&src, Some(&tree), model, Entry::TreeImm, true);
+        out.eval();
+        if exec::compare(out, "order/read-only", &src, model, &rr_imm, &ii, Entry::TreeImm) {
+            exec::check_schedule(out, "order/read-only", &src, &tree, &ii.trace, matches!(ii.got, api::Got::Val(_)), false, Some(rr_imm.run.applied));
+        }
+    }
     // second use of the same precompiled tree: after an evaluation against a different context (builtins
     // toggled, a builtin shadowed, other variable types) it must still behave like a fresh tree
     if judged && r.chance(1, 4) {
